@@ -128,7 +128,7 @@ func C03(c *Ctx, r *report.Run) error {
 	r.Rule = "F-route (base_path {absent, /api, api, /api/, /api/v1} x method config {absent, path only, verb only, both, no leading slash}; 7 path shapes x 5 verbs; method-name shapes on default routes with/without base path; query parameters on body verbs, renamed/required) plus the core REST/query/path-kind/multi-service units: per RPC five observations are taken from the real artefacts - Go client and TS client (verb, path template and field placement recovered from two probe requests with distinctive values in every field), TS server (emitted RouteDescriptors), OpenAPI (operation, parameters, body schema), Go server (which RPC each artefact's concrete request is dispatched to) - and compared pairwise; every RPC must be exactly one OpenAPI operation; distinct = (unit, rpc, comparison, outcome)"
 	var specs []*spec.Spec
 	for _, s := range serviceSpecs(c) {
-		if (hasTag(s, "route") || (hasTag(s, "core") && !hasTag(s, "codec"))) && len(s.Files) == 1 {
+		if (hasTag(s, "route") || (hasTag(s, "core") && !hasTag(s, "codec"))) && len(s.Files) == 1 && !hasTag(s, "serveronly") {
 			specs = append(specs, s)
 		}
 	}
